@@ -1,6 +1,7 @@
 use crate::report::Report;
 use crate::Args;
 
+pub mod c10;
 pub mod c19;
 pub mod smoke;
 
@@ -8,6 +9,7 @@ pub fn run(a: &Args) -> Report {
     match a.prop.as_str() {
         "smoke" => smoke::run(a),
         "c19" => c19::run(a),
+        "c10" => c10::run(a),
         other => {
             let mut r = Report::new(other);
             r.inconclusive(&format!("unknown property {other}"));
